@@ -640,9 +640,11 @@ def bump(index, rep):
     rule = "C18.BUMP"
     fn = index.func(PARAMS, "Parameters.increase_biofuels_then_feed")
     cls = index.cls(PARAMS, "Parameters")
-    names = [a.arg for a in fn.args.args][1:]
+    from .core import own_params
+    names = own_params(fn)
+    is_method = len(names) < len(fn.args.args)
     from .core import ref_params as _rpb
-    bf2 = _rpb(fn, ["biofuel", "feed"])
+    bf2 = _rpb(fn, ["biofuel", "feed"], method=is_method)
     if len(names) < 2 or None in bf2:
         raise AnalysisError(f"increase_biofuels_then_feed signature changed: {names}")
     args = [Rat.atom((n,)) for n in names]
@@ -650,7 +652,7 @@ def bump(index, rep):
 
     def runit(it):
         it.classes = {"Parameters": cls}
-        return it.call_function(fn, list(args), {}, Obj(cls, {}, "self"))
+        return it.call_function(fn, list(args), {}, Obj(cls, {}, "self") if is_method else None)
 
     try:
         envs = explore(runit, month_classes=False)
